@@ -30,6 +30,8 @@ type engine struct {
 	loadSecs   float64
 	repo       string
 	allFuncs   map[string]*ssa.Function
+	callersOf  map[*ssa.Function][]*ssa.Function
+	usedAsValue map[*ssa.Function]bool
 	localsSnap map[string][]localVar
 	snapshotFile string
 }
